@@ -75,6 +75,22 @@ def rule_a(ctx):
                                'nothing is enqueued'))
 
 
+def _clock_name(term):
+    """name of the clock function a timestamp term was read from (datetime.now / datetime.utcnow / time.monotonic ...)"""
+    t = strip_epoch(term)
+    found = []
+
+    def walk(x):
+        if isinstance(x, tuple):
+            if x and x[0] in ('call', 'pure', 'external') and len(x) > 1 and isinstance(x[1], str) and (
+                    'now' in x[1] or 'time' in x[1] or 'monotonic' in x[1]):
+                found.append(x[1].split('.')[-1])
+            for y in x:
+                walk(y)
+    walk(t)
+    return found[0] if found else repr(t)[:40]
+
+
 def rule_b(ctx):
     rep = ctx.report
     slots = ctx.slots
@@ -124,6 +140,8 @@ def rule_b(ctx):
     ok = True
     detail = ''
     n_timeout = 0
+    watch_clocks = set()
+    stamp_clocks = set()
     for p in its:
         sleeps = [e for e in p.events if e.kind == 'call' and str(e.data.get('name', '')).endswith('sleep')]
         if len(sleeps) != 1:
@@ -149,6 +167,7 @@ def rule_b(ctx):
                 'now' in repr(diff[2])):
             ok, detail = False, 'the compared quantity is %s, not now - last keepalive' % fmt_term(diff)
             continue
+        watch_clocks.add(_clock_name(diff[2]))
         timed_out = cmps[0].data['value'] is True
         cleared = [e for e in p.events if e.kind == 'store' and e.data['target'][0] == 'attr' and
                    e.data['target'][2] == '_is_server_alive' and e.data['value'].is_const() and
@@ -173,9 +192,17 @@ def rule_b(ctx):
               e.data['target'][2] == '_last_server_keepalive']
         if not st or 'now' not in repr(st[0].data['value'].term):
             ok = False
+        else:
+            stamp_clocks.add(_clock_name(st[0].data['value'].term))
     rep.add('C15.b', 'RSocketBase.handle_keep_alive / timestamp refreshed on every KEEPALIVE', hk, ok,
             'the last-keepalive timestamp is set from the clock on all %d paths' % len(ps) if ok else
             'a KEEPALIVE can be received without refreshing the last-keepalive timestamp')
+    # ... and from the same clock the watchdog reads: naive local time minus naive UTC is off by the zone offset
+    same = len(stamp_clocks) == 1 and len(watch_clocks) == 1 and stamp_clocks == watch_clocks
+    rep.add('C15.b', 'keepalive timestamp and watchdog / one clock', hk, same,
+            'both read %s' % sorted(stamp_clocks)[0] if same else
+            'the timestamp is taken with %s, the watchdog compares it with %s: in a time zone other than UTC the '
+            'silence is mis-measured by the zone offset' % (sorted(stamp_clocks), sorted(watch_clocks)))
     # both tasks are started per connection: the sender from _before_sender, the timeout in _receiver_listen
     started = set()
     for name in ('_before_sender', '_receiver_listen'):
